@@ -319,6 +319,11 @@ func (fx *FX) execInstr(fr *frame, st *State, ins ssa.Instruction) bool {
 		return true
 	case *ssa.Range:
 		fr.vals[t] = Val{T: fx.termOf(fr, st, fr.val(t.X)), Typ: t.X.Type()}
+		if _, isMap := t.X.Type().Underlying().(*types.Map); !isMap && fx.hasUTF8() {
+			name := fx.iterName(fr, t)
+			fx.setComp(st, name, BVLit(0, 64))
+			logComp(name)
+		}
 		return true
 	case *ssa.Next:
 		return fx.execNext(fr, st, t)
@@ -1129,13 +1134,40 @@ func (fx *FX) execLookup(fr *frame, st *State, t *ssa.Lookup) bool {
 	return true
 }
 
-// Range over a string: successive Next calls return strictly increasing byte offsets within the
-// string; the rune value is unconstrained (beyond being a valid int32).
+// Range over a string. With the specification functions utf8_w / utf8_r in scope (smt block
+// `utf8`), the hidden iterator is a state component holding the byte offset of the next rune: Next
+// yields (pos < len, pos, utf8_r at pos) and advances by utf8_w at pos. Without them: successive
+// Next calls return offsets within the string and an unconstrained rune.
+func (fx *FX) iterName(fr *frame, it ssa.Value) string {
+	return "IT:" + fx.e.fnName(fr.fn) + ":" + it.Name()
+}
+
+func (fx *FX) hasUTF8() bool {
+	_, ok := fx.e.CS.Funs["utf8_w"]
+	_, ok2 := fx.e.CS.Funs["utf8_r"]
+	return ok && ok2
+}
+
 func (fx *FX) execNext(fr *frame, st *State, t *ssa.Next) bool {
 	if !t.IsString {
 		fx.unsupportedf("range over map in %s", fr.fn)
 	}
 	s := fr.val(t.Iter).T
+	if fx.hasUTF8() {
+		name := fx.iterName(fr, t.Iter)
+		pos := withSign(fx.comp(st, name, SBV64), true)
+		arr, off := app("st_arr", SBytes, s), app("st_off", SBV64, s)
+		a := bvbin("bvadd", off, pos)
+		rem := withSign(bvbin("bvsub", strLen(s), pos), true)
+		ok := fx.define("next_ok", Lt(pos, strLen(s)))
+		w := withSign(fx.define("next_w", app("utf8_w", SBV64, arr, a, rem)), true)
+		r := withSign(fx.define("next_r", app("utf8_r", SBV(32), arr, a, rem)), true)
+		k := withSign(fx.define("next_k", pos), true)
+		fx.setComp(st, name, Ite(ok, bvbin("bvadd", pos, w), pos))
+		logComp(name)
+		fr.vals[t] = Val{Tuple: []Val{{T: ok, Typ: types.Typ[types.Bool]}, {T: k, Typ: types.Typ[types.Int]}, {T: r, Typ: types.Typ[types.Rune]}}}
+		return true
+	}
 	ok := fx.freshConst("next_ok", SBool)
 	k := withSign(fx.freshConst("next_k", SBV64), true)
 	r := withSign(fx.freshConst("next_r", SBV(32)), true)
